@@ -5,6 +5,7 @@ import (
 	"encoding/json"
 	"fmt"
 	"strings"
+	"sync"
 	"time"
 
 	"github.com/nautilus/gateway"
@@ -37,11 +38,14 @@ func (Quiet) QueryPlanStep(step *gateway.QueryPlanStep)               {}
 type capPlanner struct {
 	inner gateway.QueryPlanner
 	fed   *Fed
+	once  sync.Once
 }
 
 func (c *capPlanner) Plan(ctx *gateway.PlanningContext) (gateway.QueryPlanList, error) {
-	c.fed.Merged = ctx.Schema
-	c.fed.Locations = ctx.Locations
+	c.once.Do(func() {
+		c.fed.Merged = ctx.Schema
+		c.fed.Locations = ctx.Locations
+	})
 	return c.inner.Plan(ctx)
 }
 func (c *capPlanner) WithQueryerFactory(f *gateway.QueryerFactory) gateway.QueryPlanner {
